@@ -80,6 +80,10 @@ R4 = [
       'iter().position(|k| k == key) -> first index of key (std adapter, assumed contract)'),
     R('R4.position_eq_string', r'(@ID@) \. iter \( \) \. position \( \| (@ID@) \| \* \2 == (@ID@) \)', r'vd_position(&*\1, &\3)',
       'iter().position(|k| *k == key_s) -> first index of key (std adapter, assumed contract)'),
+    R('R4.retain_in_field', r'(@ID@) \. retain \( \| (@ID@) \| (self \. @ID@) \. contains_key \( \2 \) \)', r'vd_retain_in(&mut *\1, &\3)',
+      'retain(|k| self.m.contains_key(k)) -> keep exactly the stored keys, in order (std adapter, assumed contract)'),
+    R('R4.retain_in', r'(@ID@) \. retain \( \| (@ID@) \| (@ID@) \. contains_key \( \2 \) \)', r'vd_retain_in(&mut *\1, &*\3)',
+      'retain(|k| m.contains_key(k)) -> keep exactly the stored keys, in order (std adapter, assumed contract)'),
     R('R4.retain_ne_str', r'(@ID@) \. retain \( \| (@ID@) \| \2 != (@ID@) \)', r'vd_retain_ne_str(&mut *\1, \3)',
       'retain(|k| k != key) -> remove every occurrence (std adapter, assumed contract)'),
     R('R4.retain_ne_ref', r'(@ID@) \. retain \( \| (@ID@) \| \2 != & (@ID@) \)', r'vd_retain_ne(&mut *\1, &\3)',
@@ -369,3 +373,97 @@ def r7_str_match(text, log, base_line, item_name):
         pos = cb + 1
         n += 1
     return out + text[pos:]
+
+
+def _receiver_start(text, dot):
+    """Start offset of the postfix-expression chain that ends right before text[dot] == '.'"""
+    i = dot
+    while i > 0:
+        j = i - 1
+        while j >= 0 and text[j].isspace():
+            j -= 1
+        if j < 0:
+            break
+        c = text[j]
+        if c in ')]':
+            # jump to the matching opener
+            depth, k = 0, j
+            while k >= 0:
+                if text[k] in ')]':
+                    depth += 1
+                elif text[k] in '([':
+                    depth -= 1
+                    if depth == 0:
+                        break
+                k -= 1
+            if k < 0:
+                break
+            i = k
+            continue
+        if c.isalnum() or c == '_':
+            k = j
+            while k >= 0 and (text[k].isalnum() or text[k] == '_'):
+                k -= 1
+            word = text[k + 1:j + 1]
+            if word in ('return', 'if', 'else', 'match', 'in', 'let', 'mut', 'while', 'break'):
+                break
+            i = k + 1
+            continue
+        if c == '.':
+            i = j
+            continue
+        if c == ':' and j > 0 and text[j - 1] == ':':
+            i = j - 1
+            continue
+        if c == '?':
+            i = j
+            continue
+        break
+    return i
+
+
+def r4_option_combinators(text, log, base_line, item_name):
+    """R4o: closure-taking Option combinators -> the `match` they abbreviate (semantics preserving; closures without
+    `return` / `?`):  X.map_or(D, |v| E) -> match X { Some(v) => E, None => D };  X.is_some_and(|v| E) -> .. None => false;
+    X.map(|v| E).unwrap_or(D) -> match X { Some(v) => E, None => D }."""
+    from . import rustsrc
+    for _round in range(20):
+        m = re.search(r'\.\s*(map_or|is_some_and|is_none_or)\s*\(', text)
+        if not m:
+            break
+        op = m.end() - 1
+        cl = rustsrc.match_close(text, op)
+        inner = text[op + 1:cl]
+        kind = m.group(1)
+        if kind == 'map_or':
+            # split default , closure at depth 0
+            depth, cut = 0, None
+            for idx, ch in enumerate(inner):
+                if ch in '([{':
+                    depth += 1
+                elif ch in ')]}':
+                    depth -= 1
+                elif ch == ',' and depth == 0:
+                    cut = idx
+                    break
+            if cut is None:
+                break
+            default, clos = inner[:cut].strip(), inner[cut + 1:].strip()
+        else:
+            default, clos = ('false' if kind == 'is_some_and' else 'true'), inner.strip()
+        mc = re.match(r'\|\s*([^|]*?)\s*\|\s*(.*)$', clos, re.S)
+        if not mc:
+            break
+        pat, body = mc.group(1), mc.group(2).strip().rstrip(',').strip()
+        if re.search(r'\breturn\b|\?', body):
+            break
+        start = _receiver_start(text, m.start())
+        recv = text[start:m.start()].strip()
+        if not recv:
+            break
+        new = '(match %s { Some(%s) => %s, None => %s })' % (recv, pat, body, default)
+        log.append(dict(rule='R4o.' + kind, line=base_line + text.count('\n', 0, start), old=_short(text[start:cl + 1]), new=_short(new), item=item_name))
+        # keep the line structure
+        nl = text.count('\n', start, cl + 1)
+        text = text[:start] + new + '\n' * nl + text[cl + 1:]
+    return text
